@@ -173,8 +173,8 @@ Proof.
       apply bind_eq in E as [u1 [c1 [ev1 [E1 E]]]]. unfold modify in E1. injection E1 as _ Ec1 Ee1. subst c1 ev1.
       apply bind_eq in E as [u2 [c2 [ev2 [E2 E]]]].
       rewrite He, N.eqb_refl in E2. unfold event in E2. injection E2 as _ Ec2 Ee2. subst c2 ev2.
-      destruct (lc_processTLVs rnd r x acc _ _ _ _ _ E) as [new2 [N2 _]].
-      exists ([evSec c_GoneInsecure] ++ new2). split; [rewrite N2, <- app_assoc; reflexivity|].
+      apply ret_eq in E. injection E as _ Ec' Ee'. subst c' ev'.
+      exists ([evSec c_GoneInsecure] ++ []). split; [rewrite app_nil_r; reflexivity|].
       right. apply has_sec_app_l. intros N. inversion N as [|? ? H1 _]. discriminate.
     + (* SMP *)
       apply bind_eq in E as [cg [c0 [ev0 [Eg E]]]]. apply get_eq in Eg. injection Eg as -> -> ->. cbv zeta in E.
